@@ -24,7 +24,7 @@ ASSUMPTIONS = ["the uncached evaluator / refsem give the meaning of trees (C02)"
 RULE = "one item per (skeleton, map shape); non-trivial = map has a key occurring in the tree or the identity clause was evaluated"
 
 MAPS = ["const", "const_varkey", "const_kwargs", "othervar", "incr", "swap", "chain", "subscript_key", "subscript_and_index",
-        "lookup_key", "unused", "all_leaves", "index_then_subscript_key", "nonvar_names"]
+        "lookup_key", "unused", "all_leaves", "index_then_subscript_key", "nonvar_names", "mixed_kwargs"]
 D3 = ["sum2", "prod2", "quot", "pow", "if", "lor2", "cmp_lt", "call1", "sub1", "cse"]
 
 
@@ -54,7 +54,10 @@ def items(tier):
               ("callkw0", v("f1", "fn"), v("x2")),
               ("sum2", ("lookup", v("o1", "rec")), v("x2")),
               ("sub1", v("a1", "arr"), ("sub1", v("a1", "arr"), v("x2"))),
-              ("sum2", v("x1"), v("x1")), ("prod2", ("sum2", v("x1"), v("x2")), ("sum2", v("x1"), v("x2")))]:
+              ("sum2", v("x1"), v("x1")), ("prod2", ("sum2", v("x1"), v("x2")), ("sum2", v("x1"), v("x2"))),
+              # nodes of a user subclass of Variable (evaluated by name, replaced through name keys like any variable)
+              ("sum2", v("x1", "tnum"), ("prod2", ("c", 2), v("x2"))), ("call1", v("f1", "fn"), v("x2", "tnum")),
+              ("sum3", v("x1", "tnum"), v("x1"), v("x2", "tnum")), ("sub1", v("a1", "arr"), ("sum2", v("x2", "tnum"), v("x3")))]:
         for m in MAPS:
             out.append(("skel", d, m))
     return out
@@ -99,7 +102,7 @@ def children_of(x):
 
 def build_map(desc, expr, shape):
     """-> (mapping for substitute(), kwargs, name_repl {name: expr}, node_repl [(node, expr)])  or None"""
-    nums = [n for n, t in skel.leaves(desc) if t in ("num", "exp", "shift")]
+    nums = [n for n, t in skel.leaves(desc) if t in ("num", "tnum", "exp", "shift")]
     V = p.Variable
     if shape in ("const", "const_varkey", "const_kwargs", "incr"):
         if not nums:
@@ -107,7 +110,8 @@ def build_map(desc, expr, shape):
         k = nums[0]
         val = 7 if shape != "incr" else V(k) + 1
         if shape == "const_varkey":
-            return {V(k): val}, {}, {k: val}, []
+            # a node key replaces the nodes equal to it (a user subclass instance of the same name is another node)
+            return {V(k): val}, {}, {}, [(V(k), val)]
         if shape == "const_kwargs":
             return {}, {k: val}, {k: val}, []
         return {k: val}, {}, {k: val}, []
@@ -127,6 +131,12 @@ def build_map(desc, expr, shape):
             return None
         m = {n: V(n) + i for i, n in enumerate(nums, 1)}
         return dict(m), {}, dict(m), []
+    if shape == "mixed_kwargs":
+        # a mapping AND keyword arguments in one call: still one simultaneous substitution
+        if len(nums) < 2:
+            return None
+        a, b = nums[0], nums[1]
+        return {a: V(b) + 1}, {b: V(a) * 3}, {a: V(b) + 1, b: V(a) * 3}, []
     if shape == "unused":
         return {"unused_name": 1, V("other_unused"): 2}, {}, {}, []
     if shape == "nonvar_names":
